@@ -28,9 +28,9 @@ theorem hs_tensor {n1 n2 : Nat} (A : Mat K n1 n1) (B : Mat K n2 n2) : tensorHsHs
 theorem product_gate_action {a b c d : Nat} (A : Mat K a b) (B : Mat K c d) (x : Vec K b) (y : Vec K d) :
     (kron A B).mulVec (kronVec x y) = kronVec (A.mulVec x) (B.mulVec y) := kron_mulVec A B x y
 
-/-- C07 single-swap lemma: the vec-permutation `I_H ⊗ K(p,q) ⊗ I_T` (the matrix `_left_permutation_matrix`
-*should* build, with `H`, `T` the **products** of the sizes before / after the swapped pair) exchanges the two
-adjacent tensor factors and leaves the rest alone — for all sizes. -/
+/-- C07 single-swap lemma: the vec-permutation `I_H ⊗ K(p,q) ⊗ I_T` that `_left_permutation_matrix` builds (`H`, `T`
+the products of the sizes before / after the swapped pair, `leftPerm_dims`) exchanges the two adjacent tensor
+factors and leaves the rest alone — for all sizes. -/
 theorem left_perm_single_swap (H p q T : Nat) (xh : Vec K H) (u : Vec K q) (v : Vec K p) (xt : Vec K T) :
     (kron (kron (Mat.one : Mat K H H) (Kmat p q)) (Mat.one : Mat K T T)).mulVec
         (kronVec (kronVec xh (kronVec u v)) xt)
@@ -47,41 +47,9 @@ theorem tensorObjExec_eq : tensorObjExec = tensorObj := by
   funext n1 n2 A B
   exact (tensorHsHs_eq_kron A B).symm
 
-/-! ### `_left_permutation_matrix`: coded (sum) sizes versus product sizes -/
-
-/-- C07 `perm_sorts`, part "the coded sizes are right for at most three subsystems": for a size list of length
-≤ 3 and every swap position the loop can produce, `_left_permutation_matrix` as coded (identity sizes by
-`reduce(add, …)`) equals the version with product sizes, for all sizes. -/
-theorem leftPerm_eq_fixed_le3 {K : Type} [Add K] [Mul K] [Zero K] [One K]
-    (sizes : List Nat) (pos : Nat) (hlen : sizes.length ≤ 3) (h1 : 1 ≤ pos) (h2 : pos < sizes.length) :
-    leftPerm (K := K) pos sizes = leftPermFixed pos sizes := by
-  match sizes, pos with
-  | [a, b], 1 => simp [leftPerm, leftPermFixed, sumL, prodL]
-  | [a, b, c], 1 => simp [leftPerm, leftPermFixed, sumL, prodL]
-  | [a, b, c], 2 => simp [leftPerm, leftPermFixed, sumL, prodL]
-  | [], p => simp at h2
-  | [a], p => simp at h2; omega
-  | [a, b], 0 => omega
-  | [a, b], p + 2 => simp at h2
-  | [a, b, c], 0 => omega
-  | [a, b, c], p + 3 => simp at h2
-  | a :: b :: c :: d :: r, p => simp at hlen
-
 def isShapeErr {α : Type} : Except Err α → Bool
   | .error .shape => true
   | _ => false
-
-/-- D7 (`_left_permutation_matrix`, matrix_util.py:681,689): with four subsystems the coded head/tail sizes are
-wrong. "calc_permutation_matrix returns a matrix for every order of distinct names" is false: for system order
-`[1,0,2,3]` with sizes `[2,2,2,3]` the left factor is 20×20 (`1·(2·2)·(2+3)`) against the 24×24 accumulator
-and the matrix product raises. -/
-theorem calcPerm_total_fails :
-    ¬ ∀ order sizes : List Nat, order.Nodup → order.length = sizes.length →
-        isShapeErr (calcPerm (K := Int) order sizes) = false := by
-  intro h
-  have := h [1, 0, 2, 3] [2, 2, 2, 3] (by decide) rfl
-  revert this
-  decide +kernel
 
 /-! ### the bubble sort on subsystem names (`calc_permutation_matrix` loop) -/
 
@@ -163,14 +131,14 @@ theorem calcPerm_never_fuel {K : Type} [Add K] [Mul K] [Zero K] [One K] (order s
     intro h2; injection h2 with h2; subst h2
     exact this h
 
-/-- C07 `perm_sorts` for the definition with **product** sizes, shape part (validates the proposed patch for
-every number of subsystems): with head/tail identity sizes computed as products, `calc_permutation_matrix` never
-raises — every intermediate matrix product is well-shaped — and returns with the names ascending, for every
-order of any number of subsystems and any sizes. -/
-theorem calcPermFixed_total {K : Type} [Add K] [Mul K] [Zero K] [One K]
+/-- C07 `perm_sorts`, shape part, every number of subsystems: every intermediate matrix product of the
+`calc_permutation_matrix` loop is well-shaped (the head/tail identity sizes are the products of the neighbouring
+sizes), so the loop never raises and returns with the names ascending — for every order of any number of
+subsystems and any sizes. -/
+theorem calcPermLoop_total {K : Type} [Add K] [Mul K] [Zero K] [One K]
     (fuel : Nat) (order sizes : List Nat) (perm : DMat K)
     (hlen : order.length = sizes.length) (hr : perm.r = prodL sizes) (hf : inv order < fuel) :
-    ∃ P o s, calcPermLoop (K := K) leftPermFixed fuel order sizes perm = .ok (P, o, s) ∧
+    ∃ P o s, calcPermLoop (K := K) leftPerm fuel order sizes perm = .ok (P, o, s) ∧
       o.Pairwise (· ≤ ·) ∧ o.Perm order := by
   induction fuel generalizing order sizes perm with
   | zero => omega
@@ -184,7 +152,7 @@ theorem calcPermFixed_total {K : Type} [Add K] [Mul K] [Zero K] [One K]
       obtain ⟨spre, sq, sp, spost, rfl, hsl⟩ := split_at_pair sizes (pre.length + 1) (by omega)
         (by rw [← hlen]; simp)
       have hsl' : spre.length + 1 = pre.length + 1 := by omega
-      obtain ⟨M, hM, hMr, hMc⟩ := leftPermFixed_dims (K := K) spre sq sp spost
+      obtain ⟨M, hM, hMr, hMc⟩ := leftPerm_dims (K := K) spre sq sp spost
       rw [hsl'] at hM
       rw [hM]
       have hmul : M.c = perm.r := by
@@ -203,27 +171,13 @@ theorem calcPermFixed_total {K : Type} [Add K] [Mul K] [Zero K] [One K]
       exact ⟨P, o, s, h, hs, hp.trans (List.Perm.append_left _ (List.Perm.swap _ _ _))⟩
 
 
-/-- `calc_permutation_matrix` as coded and with product sizes coincide for at most three subsystems (all sizes,
-all orders): the defect D7 needs four. -/
-theorem calcPermLoop_eq_fixed_le3 {K : Type} [Add K] [Mul K] [Zero K] [One K]
-    (fuel : Nat) (order sizes : List Nat) (perm : DMat K)
-    (hlen : order.length = sizes.length) (h3 : sizes.length ≤ 3) :
-    calcPermLoop (K := K) leftPerm fuel order sizes perm = calcPermLoop leftPermFixed fuel order sizes perm := by
-  induction fuel generalizing order sizes perm with
-  | zero => simp [calcPermLoop]
-  | succ f ih =>
-    unfold calcPermLoop
-    split
-    · rfl
-    · rename_i pos hc
-      obtain ⟨pre, a, b, post, hl, hp, _⟩ := checkCross_some _ _ hc
-      have hpos : pos < sizes.length := by rw [← hlen, hl, hp]; simp
-      rw [leftPerm_eq_fixed_le3 sizes pos h3 (by omega) hpos]
-      split
-      · rfl
-      · split
-        · rfl
-        · exact ih _ _ _ (by simp [swapAt_length, hlen]) (by simp [swapAt_length, h3])
+/-- C07 `perm_sorts`, `calc_permutation_matrix` is total: for every order of any number of subsystems with one
+size per name it returns a matrix (never the matmul shape error that four subsystems used to trigger). -/
+theorem calcPerm_total {K : Type} [Add K] [Mul K] [Zero K] [One K] (order sizes : List Nat)
+    (hlen : order.length = sizes.length) : ∃ P, calcPerm (K := K) order sizes = .ok P := by
+  obtain ⟨P, o, s, h, _, _⟩ := calcPermLoop_total (K := K) (order.length * order.length + 1) order sizes
+    (DMat.eye (prodL sizes)) hlen rfl (by have := inv_le_sq order; omega)
+  exact ⟨P, by simp [calcPerm, h, Except.map]⟩
 
 def insertNat (x : Nat) : List Nat → List Nat
   | [] => [x]
@@ -254,47 +208,25 @@ def sizeOfName (n : Nat) : Nat := [2, 3, 2, 2].getD n 1
 def sizeOfName4 (n : Nat) : Nat := [2, 1, 2, 3].getD n 1
 
 /-- C07 `perm_sorts`, finite table (`decide +kernel`; four subsystems of sizes 2,1,2,3, three orders including
-the full reversal — not the unbounded claim): the matrix computed with product sizes turns the tensor layout of
-the given order into the layout in ascending name order. -/
-theorem calcPermFixed_sorts_table :
+the full reversal — not the unbounded claim): the matrix returned by `calc_permutation_matrix` turns the tensor
+layout of the given order into the layout in ascending name order. -/
+theorem calcPerm_sorts_table_four :
     [[3, 2, 1, 0], [1, 3, 0, 2], [2, 0, 3, 1]].all
-      (fun o => sortsOK calcPermFixed o (o.map sizeOfName4)) = true := by
+      (fun o => sortsOK calcPerm o (o.map sizeOfName4)) = true := by
   decide +kernel
 
-/-- the same check for the code as written, three subsystems (all 6 orders of names 0,1,2, sizes 2,3,2):
-correct. Finite table. -/
+/-- the same check for three subsystems (all 6 orders of names 0,1,2, sizes 2,3,2). Finite table. -/
 theorem calcPerm_sorts_table_three :
     [[0,1,2],[0,2,1],[1,0,2],[1,2,0],[2,0,1],[2,1,0]].all
         (fun o => sortsOK calcPerm o (o.map sizeOfName)) = true := by
   decide +kernel
 
-/-- … and for four subsystems of sizes 2,1,2,3 the code as written fails on each of the three orders above. -/
-theorem calcPerm_sorts_table_four_fails :
-    [[3, 2, 1, 0], [1, 3, 0, 2], [2, 0, 3, 1]].all
-      (fun o => !sortsOK calcPerm o (o.map sizeOfName4)) = true := by
-  decide +kernel
+/-! ### the measurement-process layout (open defect D7b) -/
 
-/-! ### finite tables (labelled as such) and the measurement-process layout -/
-
-/-- the system order `_tensor_product` hands to `calc_permutation_matrix` in the last step of the left fold
-`((a ⊗ b) ⊗ c) ⊗ d`: the (already sorted) first three names followed by the fourth -/
-def lastStepOrder (o : List Nat) : List Nat := (o.take 3).foldr insertNat [] ++ o.drop 3
-
-/-- D7, finite table (`decide +kernel`, not an unbounded claim): sizes `[4,4,4,4]` (four 1-qubit states).
-Called directly, `calc_permutation_matrix` as coded raises the matmul shape error for 22 of the 24 orders of
-names (all that need a swap at position 1 or 3). Inside the left fold of `tensor_product`, where the first three
-names arrive sorted, the last step raises for exactly 18 of the 24 argument orders: all but those whose last
-name is the largest. -/
+/-- finite table (`decide +kernel`): for four 1-qubit states (sizes `[4,4,4,4]`) none of the 24 orders of names
+raises (the instance of `calcPerm_total` on which the old sum-sized identity blocks failed for 22 orders). -/
 theorem calcPerm_four_qubits_table :
-    (orders4.filter fun o => isShapeErr (calcPerm (K := Int) o [4, 4, 4, 4])).length = 22 ∧
-    (orders4.filter fun o => isShapeErr (calcPerm (K := Int) (lastStepOrder o) [4, 4, 4, 4])).length = 18 ∧
-    (orders4.filter fun o => !isShapeErr (calcPerm (K := Int) (lastStepOrder o) [4, 4, 4, 4])) =
-      orders4.filter fun o => o.getLast? = some 3 := by
-  decide +kernel
-
-/-- the same table for the version with product sizes: no order raises -/
-theorem calcPermFixed_four_qubits_table :
-    (orders4.filter fun o => isShapeErr (calcPermFixed (K := Int) o [4, 4, 4, 4])).length = 0 := by
+    (orders4.filter fun o => isShapeErr (calcPerm (K := Int) o [4, 4, 4, 4])).length = 0 := by
   decide +kernel
 
 /-- HS matrices of a 1-dimensional system (1×1) — enough to exhibit an outcome layout -/
